@@ -2007,9 +2007,27 @@ class MZgate(Gate):
     def __init__(self, phi_in, phi_ex):
         super().__init__([phi_in, phi_ex])
 
+    def apply(self, reg, backend, **kwargs):
+        # phi_in does not follow the Gate convention for the first parameter:
+        # phi_in = 0 is not the identity, so the gate must not be skipped
+        if np.all(self.p[0] == 0):
+            self._apply([rr.ind for rr in reg], backend, **kwargs)
+            return
+
+        super().apply(reg, backend, **kwargs)
+
     def _apply(self, reg, backend, **kwargs):
         phi_in, phi_ex = par_evaluate(self.p)
-        backend.mzgate(phi_in, phi_ex, *reg)
+        if self.dagger:
+            # Gate.apply has negated phi_in, which does not invert this gate:
+            # undo it and apply the inverse of the decomposition instead
+            phi_in = -phi_in
+            backend.beamsplitter(-np.pi / 4, np.pi / 2, *reg)
+            backend.rotation(-phi_in, reg[0])
+            backend.beamsplitter(-np.pi / 4, np.pi / 2, *reg)
+            backend.rotation(-phi_ex, reg[0])
+        else:
+            backend.mzgate(phi_in, phi_ex, *reg)
 
     def _decompose(self, reg, **kwargs):
         # into local phase shifts and two 50-50 beamsplitters
